@@ -1287,10 +1287,17 @@ func (e *symEnv) evalCall(call *ssa.Call) []*term {
 	case "(*" + pkgProto + ".Array).ReverseBy":
 		return []*term{tOp("ReverseBy", e.eval(cc.Args[0]), e.eval(cc.Args[1]))}
 	case "strconv.ParseFloat":
+		// the bit size is part of the conversion: 32 rounds the client's number to float32
+		if bits, ok := constInt(cc.Args[1]); !ok || bits != 64 {
+			return []*term{tOp(fmt.Sprintf("float%d", bits), e.eval(cc.Args[0])), errT}
+		}
 		return []*term{convArg(e.eval(cc.Args[0]), "float"), errT}
 	case "strconv.Atoi":
 		return []*term{convArg(e.eval(cc.Args[0]), "int"), errT}
 	case "strconv.ParseInt":
+		if base, ok := constInt(cc.Args[1]); !ok || base != 10 {
+			return []*term{tOp(fmt.Sprintf("intbase%d", base), e.eval(cc.Args[0])), errT}
+		}
 		return []*term{convArg(e.eval(cc.Args[0]), "int"), errT}
 	case "strconv.Itoa":
 		return []*term{tOp("itoa", e.eval(cc.Args[0]))}
